@@ -454,6 +454,71 @@ def part_b_case(ctx, i, rng):
         ctx.sample(dict(part="B", depth=depth, how=how, dirs=w["dirs"], resolved={k: short(cfg.get(k), 120) for k in expected}))
 
 
+class _Grp:
+    def __init__(self, paths: List[Path_fr], one: Optional[Path_fr] = None, n: int = 1):
+        pass
+
+
+def subcommand_group_config_case(ctx, i, rng):
+    """a config whose subcommand section names a group config file in another directory: the relative paths inside that
+    file belong to it, at every subcommand depth and through every way of giving the outer config"""
+    import yaml
+
+    root = os.path.join(ctx.workdir, f"sg{i % 4}")
+    shutil.rmtree(root, ignore_errors=True)
+    for d in ("A", "B/data", "work/data", "A/data"):
+        os.makedirs(os.path.join(root, d))
+    for d in ("B", "work", "A"):
+        open(os.path.join(root, d, "data", "t.txt"), "w").write(d)
+    with open(os.path.join(root, "B", "group.yaml"), "w") as f:
+        yaml.safe_dump({"paths": ["data/t.txt", "./data/t.txt"], "one": "data/t.txt", "n": 2}, f)
+    depth = rng.choice([1, 2])
+    sect = {"group": "../B/group.yaml"}
+    doc = {"fit": sect} if depth == 1 else {"fit": {"deep": sect}}
+    with open(os.path.join(root, "A", "main.yaml"), "w") as f:
+        yaml.safe_dump(doc, f)
+
+    p = ArgumentParser(exit_on_error=False)
+    p.add_argument("--cfg", action=ActionConfigFile)
+    sc = p.add_subcommands()
+    fit = ArgumentParser(exit_on_error=False)
+    sc.add_subcommand("fit", fit)
+    if depth == 1:
+        fit.add_class_arguments(_Grp, "group")
+    else:
+        sc2 = fit.add_subcommands(dest="cmd")
+        deep = ArgumentParser(exit_on_error=False)
+        deep.add_class_arguments(_Grp, "group")
+        sc2.add_subcommand("deep", deep)
+    how = rng.choice(["--cfg", "parse_path", "argv"])
+    old = os.getcwd()
+    os.chdir(os.path.join(root, "work"))
+    try:
+        if how == "--cfg":
+            o = call(p.parse_args, ["--cfg", "../A/main.yaml"])
+        elif how == "parse_path":
+            o = call(p.parse_path, "../A/main.yaml")
+        else:
+            o = call(p.parse_args, ["fit"] + (["deep"] if depth == 2 else []) + ["--group", "../B/group.yaml"])
+        after = os.getcwd()
+    finally:
+        os.chdir(old)
+    ctx.count("mon.group_config_in_subcommand_section")
+    ctx.evaluation(("B-subcommand-group", depth, how))
+    w = dict(depth=depth, how=how, outcome=o.brief())
+    exp = os.path.realpath(os.path.join(root, "B", "data", "t.txt"))
+    if os.path.realpath(after) != os.path.realpath(os.path.join(root, "work")):
+        ctx.violation("relative", "cwd-not-restored/subcommand-group-config", dict(w, after=after))
+        return
+    if not o.accepted:
+        ctx.violation("relative", f"group-config-of-subcommand-rejected/{how}/depth{depth}", w)
+        return
+    g = o.value.fit.group if depth == 1 else o.value.fit.deep.group
+    got = [os.path.realpath(x.absolute) for x in list(g.paths) + [g.one]]
+    if got != [exp] * 3:
+        ctx.violation("relative", f"relative-path-not-resolved-against-its-config-file/subcommand-group-config/{how}", dict(w, got=got, expected=exp))
+
+
 def list_file_case(ctx, i, rng):
     """a plain-line list file named on the command line by a relative path: the file is found from the process cwd, its
     lines are resolved against the list file's own directory"""
@@ -525,5 +590,7 @@ def run_shard(ctx):
         part_b_case(ctx, i, r)
         if i % 5 == 0:
             list_file_case(ctx, i, r)
+        if i % 5 == 2:
+            subcommand_group_config_case(ctx, i, r)
         if i > (1500 if ctx.tier == "quick" else 8000):
             break
